@@ -21,5 +21,15 @@ CHECKS["C19"] = {
     "note": "Static: effect summaries by all-paths abstract interpretation. Assumes dict semantics and that uuid4 values do not collide (probability, not decidable statically). Histories are covered by the refinement argument, not enumerated.",
     "technique": "per-method effect summaries (all-paths abstract interpretation) compared with a map specification; who-may-write check",
 }
+CHECKS["C04"] = {
+    "text": "Taint-style dataflow over all paths of the handler registered for 'initialize': the two sinks (the protocolVersion member of the answer and the version handed to create_session) may only receive a constant that folds to a member of SUPPORTED_VERSIONS or a request-derived term on a path that carries its membership literal (is_supported is itself shown to be list membership, so non-strings and malformed strings are covered); both sinks receive the same term on every path. Together with C03 this gives the end-to-end sentence.",
+    "note": "Static: path literals + constant folding. Assumes list membership semantics of `in`. Covers the library's ProtocolHandler; a user-registered replacement handler is outside the library.",
+    "technique": "sanitised-sink dataflow over all paths (path literals over def-site terms) + constant folding of SUPPORTED_VERSIONS",
+}
+CHECKS["C03"] = {
+    "text": "All-paths abstract interpretation of send_initialize with path literals over def-site terms and ordered events: the proposed version is the preferred one only on paths that established `preferred in supported` and supported[0] otherwise, and it is what the initialize request carries on the caller's streams; every returning path carries `server_version == proposed` or `server_version in supported` with server_version derived from the validated response; the initialized notification occurs exactly once on every returning path (after acceptance, outside loops, on the caller's write stream) and zero times on every raising path; the sender writes exactly one notifications/initialized and cannot swallow a failed write; the returned object is the validated answer; both trackers record that object's protocolVersion and the batch processor recomputes its mode from the same value (C13 decides what that mode is).",
+    "note": "Static; quantifies over all lists/answers because the code only tests membership and equality of opaque terms. Server silence and JSON-RPC errors are exception edges of the send_message call (every such path is shown to carry no notification). Not decided: what the transport does with the written notification.",
+    "technique": "all-paths abstract interpretation with path literals, flow-sensitive def-site terms and ordered event counting",
+}
 
 NOT_APPLICABLE = {f"C{i:02d}": PENDING for i in range(1, 21)}
